@@ -26,9 +26,11 @@ type Cmd struct {
 
 // Queue is one command queue with its private buffers.
 type Queue struct {
-	Ctx  int   `json:"ctx"`
-	GPU  int   `json:"gpu"`
-	Cmds []Cmd `json:"cmds"`
+	Ctx int `json:"ctx"`
+	GPU int `json:"gpu"` // device the queue runs on; NumGPUs+1 = a unified device over all GPUs
+	// BufGPU: GPU whose memory holds this queue's buffers (0 = the queue's own device)
+	BufGPU int   `json:"buf_gpu,omitempty"`
+	Cmds   []Cmd `json:"cmds"`
 }
 
 // FifoCase is one generated history.
@@ -56,13 +58,21 @@ func genFifoCase(t *rapid.T) FifoCase {
 		c.Spec.GPUType = "r9nano"
 	}
 	c.NCtx = rapid.IntRange(1, 3).Draw(t, "nctx")
-	c.N = rapid.SampledFrom([]int{1, 17, 64, 100, 300, 1024, 1500}).Draw(t, "n")
+	c.N = rapid.SampledFrom([]int{1, 17, 64, 100, 300, 1024, 1500, 8192}).Draw(t, "n")
 	c.NBuf = rapid.IntRange(2, 3).Draw(t, "nbuf")
 	nq := rapid.IntRange(1, 4).Draw(t, "nq")
 	for q := 0; q < nq; q++ {
 		var qu Queue
 		qu.Ctx = rapid.IntRange(0, c.NCtx-1).Draw(t, "ctx")
 		qu.GPU = rapid.IntRange(1, c.Spec.NumGPUs).Draw(t, "gpu")
+		if c.Spec.NumGPUs > 1 {
+			switch rapid.IntRange(0, 3).Draw(t, "placement") {
+			case 0:
+				qu.GPU = c.Spec.NumGPUs + 1 // unified device
+			case 1:
+				qu.BufGPU = rapid.IntRange(1, c.Spec.NumGPUs).Draw(t, "bufgpu") // possibly remote memory
+			}
+		}
 		n := rapid.IntRange(1, 8).Draw(t, "ncmds")
 		for i := 0; i < n; i++ {
 			var cmd Cmd
@@ -166,10 +176,27 @@ func RunFifoCase(c FifoCase) (res stats.Result) {
 	}
 	qs := make([]*qstate, len(c.Queues))
 	ctxQueues := map[int]int{}
+	unified := 0
 	for i, qu := range c.Queues {
 		ctx := ctxs[qu.Ctx]
-		d.SelectGPU(ctx, qu.GPU)
+		dev := qu.GPU
+		if dev > c.Spec.NumGPUs {
+			if unified == 0 {
+				all := []int{}
+				for g := 1; g <= c.Spec.NumGPUs; g++ {
+					all = append(all, g)
+				}
+				unified = d.CreateUnifiedGPU(ctx, all)
+			}
+			dev = unified
+			res.Labels = append(res.Labels, "queue-on-unified-device")
+		}
+		d.SelectGPU(ctx, dev)
 		st := &qstate{q: d.CreateCommandQueue(ctx)}
+		if qu.BufGPU != 0 && qu.BufGPU != qu.GPU && qu.GPU <= c.Spec.NumGPUs {
+			d.SelectGPU(ctx, qu.BufGPU)
+			res.Labels = append(res.Labels, "buffers-in-another-gpus-memory")
+		}
 		for b := 0; b < c.NBuf; b++ {
 			st.bufs = append(st.bufs, d.AllocateMemory(ctx, uint64(c.N*4)))
 			init := pattern(uint32(1000*i+b), c.N)
